@@ -338,9 +338,11 @@ func c03lStrategy(e *c03lEnv, sc c03lScript, k c03lKnow, to int) (out []c03lMsg,
 		v = zero
 	}
 	// claim: a sub-message that says "member j cast vote (typ, round, vh)" although the member holds no such message of j
+	why := "genuine-messages-to-alter"
 	claim := func(j int64, typ qbft.MsgType, round int64, vh []byte) *pbv1.QBFTMsg {
 		if genuine(j, typ, round, vh) != nil {
-			return nil // it holds the real thing: attaching it would be no forgery
+			why = "nothing-to-forge:it-holds-the-genuine-vote" // attaching the real thing would be no forgery (control relay-genuine does that)
+			return nil
 		}
 		base := &pbv1.QBFTMsg{Type: int64(typ), Duty: core.DutyToProto(duty), PeerIdx: j, Round: round, ValueHash: vh, PreparedRound: 0, PreparedValueHash: zero}
 		switch sc.Claim {
@@ -419,7 +421,7 @@ func c03lStrategy(e *c03lEnv, sc c03lScript, k c03lKnow, to int) (out []c03lMsg,
 		return nil, "unknown-form"
 	}
 	if just == nil {
-		return nil, "genuine-messages-to-alter"
+		return nil, why
 	}
 	out = append(out, c03lMsg{"forged", wrap(top, just)},
 		c03lMsg{"trigger", wrap(own(qbft.MsgPrepare, voteRound, v, 0, nil), nil)},
@@ -498,7 +500,7 @@ func c03lRun(t *testing.T, e *c03lEnv, sc c03lScript) (res c03lResult) {
 			return time.Duration(sc.Life[i].start()) * time.Millisecond
 		}
 		var (
-			obs      sync.Mutex // harness-side records
+			obs      sync.Mutex               // harness-side records
 			byzLog   []*pbv1.QBFTConsensusMsg // everything the Byzantine member received and sent
 			byzOwnPP []*pbv1.QBFTMsg          // the PRE-PREPAREs it sent (ordinary behaviour and strategy)
 		)
@@ -528,7 +530,9 @@ func c03lRun(t *testing.T, e *c03lEnv, sc c03lScript) (res c03lResult) {
 				if i == sc.Byz || time.Since(t0) < deafUntil(i) {
 					continue
 				}
+				obs.Lock()
 				res.byzSent++
+				obs.Unlock()
 				sendTo(m, i)
 			}
 		}
